@@ -762,11 +762,16 @@ func (c *FnCtx) finishPath(st *State, explicit bool) {
 		}
 	}
 	// frame: package-level variables assigned on this path are listed in modifies (callers rely on the list)
-	for o, cur := range st.vars {
-		v, ok := o.(*types.Var)
-		if !ok || v.Pkg() == nil || v.Parent() != v.Pkg().Scope() {
-			continue
+	var gvars []*types.Var
+	for o := range st.vars {
+		if v, ok := o.(*types.Var); ok && v.Pkg() != nil && v.Parent() == v.Pkg().Scope() {
+			gvars = append(gvars, v)
 		}
+	}
+	sort.Slice(gvars, func(i, j int) bool { return gvars[i].Name() < gvars[j].Name() })
+	for _, v := range gvars {
+		var o types.Object = v
+		cur := st.vars[o]
 		old, ok2 := c.entry.vars[o]
 		if !ok2 || cur.S == old.S {
 			continue
